@@ -6,6 +6,8 @@
 //! uses the public API only (real participants, real threads, real UDP on the
 //! loopback/host interface).  The enumeration is exhaustive; the thread
 //! interleaving inside a scenario is the operating system's (see DESIGN.md).
+//! Three-party scenarios (`Scenario::third`) add a participant with a second
+//! reader or a second writer on the topic, over selected orders (`orders3`).
 use std::{
   io::{BufRead, BufReader},
   process::{Command, Stdio},
@@ -48,6 +50,19 @@ pub enum Step {
   R,
   /// first batch of writes, without waiting for any match
   X,
+  /// a third participant, its topic, and its endpoint on the same topic (`Scenario::third` says which kind)
+  P3,
+  T3,
+  E3,
+}
+
+/// what the third participant has on the topic
+#[derive(Serialize, Deserialize, Debug, Clone, Copy, PartialEq, Eq)]
+pub enum Third {
+  /// a second reader: the one writer serves both
+  Reader,
+  /// a second writer: the one reader hears both, each stream complete and in order
+  Writer,
 }
 
 #[derive(Serialize, Deserialize, Debug, Clone, Copy, PartialEq, Eq)]
@@ -79,6 +94,13 @@ pub struct Scenario {
   /// topic name (with security on it selects the topic rule: T_<metadata kind>_<data kind>)
   #[serde(default = "default_topic")]
   pub topic: String,
+  /// three-party scenarios: the order contains P3 < T3 < E3
+  #[serde(default)]
+  pub third: Option<Third>,
+  /// finally the third participant is deleted as a whole: its peer sees exactly that unmatch, and the
+  /// remaining pair goes on delivering
+  #[serde(default)]
+  pub third_deleted: bool,
 }
 
 fn default_topic() -> String {
@@ -111,6 +133,49 @@ pub fn orders() -> Vec<Vec<Step>> {
   out
 }
 
+/// Three-party creation orders.  The 4200 interleavings of the three chains are not all run end to end;
+/// these are the ones that differ in which participant / endpoint comes first and last and in whether
+/// the chains are nested, layered or alternate: every permutation of the three chains (a) one after
+/// the other, (b) layered (all participants, all topics, all endpoints, first writes last), (c) layered
+/// with the first writes straight after the writer, (d) round robin.
+pub fn orders3() -> Vec<Vec<Step>> {
+  use Step::*;
+  let chains: [Vec<Step>; 3] = [vec![P1, T1, W, X], vec![P2, T2, R], vec![P3, T3, E3]];
+  let perms: [[usize; 3]; 6] = [[0, 1, 2], [0, 2, 1], [1, 0, 2], [1, 2, 0], [2, 0, 1], [2, 1, 0]];
+  let mut out: Vec<Vec<Step>> = vec![];
+  for p in perms {
+    // (a) sequential
+    out.push(p.iter().flat_map(|c| chains[*c].clone()).collect());
+    // (b) layered, X last; (c) layered, X after W
+    let mut layered: Vec<Step> = vec![];
+    for layer in 0..3 {
+      for c in p {
+        layered.push(chains[c][layer]);
+      }
+    }
+    let mut b = layered.clone();
+    b.push(X);
+    out.push(b);
+    let mut c = layered.clone();
+    let wi = c.iter().position(|s| *s == W).unwrap();
+    c.insert(wi + 1, X);
+    out.push(c);
+    // (d) round robin over the chains until all are exhausted
+    let mut d = vec![];
+    for layer in 0..4 {
+      for c in p {
+        if let Some(s) = chains[c].get(layer) {
+          d.push(*s);
+        }
+      }
+    }
+    out.push(d);
+  }
+  out.sort_by_key(|o| format!("{o:?}"));
+  out.dedup();
+  out
+}
+
 pub fn scenarios(tier: &str) -> Vec<Scenario> {
   let mut v = vec![];
   let os = orders();
@@ -124,6 +189,8 @@ pub fn scenarios(tier: &str) -> Vec<Scenario> {
     delete: Delete::None,
     secure: None,
     topic: default_topic(),
+    third: None,
+    third_deleted: false,
   };
   // security on: identities, permissions and governance from the signed fixtures; the handshake, the key
   // exchange and all protection are the real ones, over the network
@@ -183,7 +250,35 @@ pub fn scenarios(tier: &str) -> Vec<Scenario> {
         v.push(secure(o, if (gi + ti) % 2 == 0 { vec![late] } else { vec![] }, (gi + ti) % 2 == 0, gov, topic, size));
       }
     }
+    // three participants: a second reader or a second writer in a third participant, every selected order,
+    // both durabilities; on the TransientLocal ones the third participant is deleted at the end
+    for (i, o) in orders3().iter().enumerate() {
+      for third in [Third::Reader, Third::Writer] {
+        for tl in [false, true] {
+          let mut s = base(o, vec![], tl);
+          s.third = Some(third);
+          s.third_deleted = tl;
+          if i % 4 == 1 {
+            s.size = 1003;
+          }
+          if i % 4 == 2 {
+            s.settle_before = vec![o.len() - 1];
+          }
+          if i % 6 == 3 {
+            s.loss = Some((5, 3));
+          }
+          v.push(s);
+        }
+      }
+    }
   } else {
+    let o3 = orders3();
+    for (k, third, tl) in [(0usize, Third::Reader, true), (o3.len() / 2, Third::Writer, true), (o3.len() - 1, Third::Reader, false), (o3.len() / 3, Third::Writer, false)] {
+      let mut s = base(&o3[k], vec![], tl);
+      s.third = Some(third);
+      s.third_deleted = tl;
+      v.push(s);
+    }
     // every order once, with one pause before the later endpoint creation; durability alternates;
     // plus the deletions, one no_key, one fragmented and one lossy scenario
     for (i, o) in os.iter().enumerate() {
@@ -335,6 +430,9 @@ fn participant(domain: u16, _n: u8, secure: Option<&str>) -> Result<DomainPartic
 
 /// Runs one scenario in this process. Ok(None): held; Ok(Some((key, message))): the property is violated.
 pub fn run_scenario(sc: &Scenario, domain: u16) -> Result<Option<(String, String)>, String> {
+  if sc.third.is_some() {
+    return run_scenario3(sc, domain);
+  }
   if let Some((m, j)) = sc.loss {
     rustdds::verif::net::set_loss_pattern(m, j);
   }
@@ -390,6 +488,7 @@ pub fn run_scenario(sc: &Scenario, domain: u16) -> Result<Option<(String, String
         }
         t_x = Some(Instant::now());
       }
+      Step::P3 | Step::T3 | Step::E3 => return Err("MACHINERY: three-party step in a two-party scenario".into()),
     }
   }
   let w = w.unwrap();
@@ -547,6 +646,222 @@ pub fn run_scenario(sc: &Scenario, domain: u16) -> Result<Option<(String, String
   Ok(None)
 }
 
+fn got_id(g: &Got) -> i32 {
+  match g {
+    Got::Value(id, ..) | Got::Dispose(id) => *id,
+  }
+}
+
+/// Three participants: P1 with the writer, P2 with the reader, P3 with a second reader or a second writer
+/// on the same topic (with_key, no deletions of the first pair, security off).
+fn run_scenario3(sc: &Scenario, domain: u16) -> Result<Option<(String, String)>, String> {
+  let third = sc.third.unwrap();
+  if let Some((m, j)) = sc.loss {
+    rustdds::verif::net::set_loss_pattern(m, j);
+  }
+  let qos = QosPolicyBuilder::new()
+    .reliability(Reliability::Reliable { max_blocking_time: rustdds::Duration::from_secs(5) })
+    .history(History::KeepAll)
+    .durability(if sc.transient_local { Durability::TransientLocal } else { Durability::Volatile })
+    .build();
+  let e = |x: &dyn std::fmt::Debug| format!("MACHINERY {x:?}");
+  let mut dps: [Option<DomainParticipant>; 3] = [None, None, None];
+  let mut topics: [Option<rustdds::Topic>; 3] = [None, None, None];
+  let mut publishers = vec![];
+  let mut subscribers = vec![];
+  let (mut w, mut r, mut w3, mut r3): (Option<AnyWriter>, Option<AnyReader>, Option<AnyWriter>, Option<AnyReader>) = (None, None, None, None);
+  let (mut t_r, mut t_e3, mut t_x) = (None, None, None);
+  let mk_w = |dp: &DomainParticipant, t: &rustdds::Topic, keep: &mut Vec<rustdds::Publisher>| -> Result<AnyWriter, String> {
+    let p = dp.create_publisher(&qos).map_err(|x| e(&x))?;
+    let w = AnyWriter::K(p.create_datawriter::<Msg, rustdds::CDRSerializerAdapter<Msg>>(t, None).map_err(|x| e(&x))?);
+    keep.push(p);
+    Ok(w)
+  };
+  let mk_r = |dp: &DomainParticipant, t: &rustdds::Topic, keep: &mut Vec<rustdds::Subscriber>| -> Result<AnyReader, String> {
+    let s = dp.create_subscriber(&qos).map_err(|x| e(&x))?;
+    let r = AnyReader::K(s.create_datareader::<Msg, rustdds::CDRDeserializerAdapter<Msg>>(t, None).map_err(|x| e(&x))?);
+    keep.push(s);
+    Ok(r)
+  };
+  let mut third_pub: Vec<rustdds::Publisher> = vec![];
+  let mut third_sub: Vec<rustdds::Subscriber> = vec![];
+  for (i, st) in sc.order.iter().enumerate() {
+    if sc.settle_before.contains(&i) {
+      std::thread::sleep(SETTLE);
+    }
+    match st {
+      Step::P1 | Step::P2 | Step::P3 => {
+        let k = match st {
+          Step::P1 => 0,
+          Step::P2 => 1,
+          _ => 2,
+        };
+        dps[k] = Some(participant(domain, k as u8 + 1, None)?);
+      }
+      Step::T1 | Step::T2 | Step::T3 => {
+        let k = match st {
+          Step::T1 => 0,
+          Step::T2 => 1,
+          _ => 2,
+        };
+        topics[k] = Some(dps[k].as_ref().unwrap().create_topic(sc.topic.clone(), "Msg".into(), &qos, TopicKind::WithKey).map_err(|x| e(&x))?);
+      }
+      Step::W => w = Some(mk_w(dps[0].as_ref().unwrap(), topics[0].as_ref().unwrap(), &mut publishers)?),
+      Step::R => {
+        r = Some(mk_r(dps[1].as_ref().unwrap(), topics[1].as_ref().unwrap(), &mut subscribers)?);
+        t_r = Some(Instant::now());
+      }
+      Step::E3 => {
+        match third {
+          Third::Reader => r3 = Some(mk_r(dps[2].as_ref().unwrap(), topics[2].as_ref().unwrap(), &mut third_sub)?),
+          Third::Writer => w3 = Some(mk_w(dps[2].as_ref().unwrap(), topics[2].as_ref().unwrap(), &mut third_pub)?),
+        }
+        t_e3 = Some(Instant::now());
+      }
+      Step::X => {
+        for k in 0..3 {
+          w.as_ref().unwrap().write(Msg { id: k, seq: k, body: body(k, sc.size) }).map_err(|x| format!("MACHINERY write: {x}"))?;
+        }
+        t_x = Some(Instant::now());
+      }
+    }
+  }
+  let w = w.unwrap();
+  let mut r = r.unwrap();
+  let (t_r, t_e3, t_x) = (t_r.unwrap(), t_e3.unwrap(), t_x.unwrap());
+  let created = Instant::now();
+  // 1. every compatible pair reports its match: the writer of P1 with the reader of P2, and the third
+  // endpoint with its one counterpart
+  let need_w = if third == Third::Reader { 2 } else { 1 };
+  let need_r = if third == Third::Writer { 2 } else { 1 };
+  let (mut wm, mut rm, mut em) = (0, 0, 0);
+  while (wm < need_w || rm < need_r || em < 1) && created.elapsed() < DEADLINE {
+    wm += w.matched_change();
+    rm += r.matched_change();
+    em += r3.as_ref().map(|x| x.matched_change()).unwrap_or(0) + w3.as_ref().map(|x| x.matched_change()).unwrap_or(0);
+    std::thread::sleep(Duration::from_millis(20));
+  }
+  if wm != need_w || rm != need_r || em != 1 {
+    return Ok(Some((
+      format!("C07:three:not-matched:{third:?}"),
+      format!(
+        "{} s after the last creation: the writer of P1 is matched with {wm} readers (should be {need_w}), the reader of P2 with {rm} writers (should be {need_r}), the {third:?} of P3 with {em} (should be 1)",
+        DEADLINE.as_secs()
+      ),
+    )));
+  }
+  // 2. second batches, written while matched
+  for k in 10..13 {
+    w.write(Msg { id: k, seq: k, body: body(k, sc.size) }).map_err(|x| format!("MACHINERY write: {x}"))?;
+  }
+  w.dispose(10).map_err(|x| format!("MACHINERY dispose: {x}"))?;
+  if let Some(w3) = &w3 {
+    for k in 20..23 {
+      w3.write(Msg { id: k, seq: k, body: body(k, sc.size) }).map_err(|x| format!("MACHINERY write: {x}"))?;
+    }
+    w3.dispose(20).map_err(|x| format!("MACHINERY dispose: {x}"))?;
+  }
+  let batch1: Vec<Got> = (0..3).map(|k| want_value(k, k, sc.size)).collect();
+  let mut batch2: Vec<Got> = (10..13).map(|k| want_value(k, k, sc.size)).collect();
+  batch2.push(Got::Dispose(10));
+  let mut batch_w3: Vec<Got> = (20..23).map(|k| want_value(k, k, sc.size)).collect();
+  batch_w3.push(Got::Dispose(20));
+  // what a reader created at `t` may take of the P1 writer's stream
+  let accept_from_w = |t: Instant| -> Vec<Vec<Got>> {
+    if sc.transient_local {
+      vec![[batch1.clone(), batch2.clone()].concat()]
+    } else if t > t_x {
+      vec![batch2.clone()]
+    } else {
+      (0..=3).map(|k| [batch1[k..].to_vec(), batch2.clone()].concat()).collect()
+    }
+  };
+  // each reader: (name, reader, acceptable P1 stream, expected P3 stream)
+  let mut readers: Vec<(&str, &mut AnyReader, Vec<Vec<Got>>, Vec<Got>)> = vec![("reader of P2", &mut r, accept_from_w(t_r), if third == Third::Writer { batch_w3.clone() } else { vec![] })];
+  if let Some(r3) = r3.as_mut() {
+    readers.push(("reader of P3", r3, accept_from_w(t_e3), vec![]));
+  }
+  for (name, rd, acc, from3) in readers.iter_mut() {
+    let longest = acc.iter().map(|a| a.len()).max().unwrap() + from3.len();
+    let mut got: Vec<Got> = vec![];
+    let start = Instant::now();
+    while start.elapsed() < DEADLINE {
+      rd.take_all(&mut got);
+      if got.len() >= longest {
+        break;
+      }
+      let s1: Vec<Got> = got.iter().filter(|g| got_id(g) < 20).cloned().collect();
+      let s3: Vec<Got> = got.iter().filter(|g| got_id(g) >= 20).cloned().collect();
+      if acc.iter().any(|a| *a == s1) && s3 == *from3 && start.elapsed() > Duration::from_millis(1500) {
+        break;
+      }
+      std::thread::sleep(Duration::from_millis(20));
+    }
+    std::thread::sleep(Duration::from_millis(700));
+    rd.take_all(&mut got);
+    let s1: Vec<Got> = got.iter().filter(|g| got_id(g) < 20).cloned().collect();
+    let s3: Vec<Got> = got.iter().filter(|g| got_id(g) >= 20).cloned().collect();
+    if !acc.iter().any(|a| *a == s1) {
+      let key = if s1.len() < acc.iter().map(|a| a.len()).min().unwrap() { "C07:three:incomplete" } else { "C07:three:wrong-sequence" };
+      return Ok(Some((format!("{key}:{third:?}"), format!("the {name} took {s1:?} from the writer of P1; acceptable: {acc:?}"))));
+    }
+    if s3 != *from3 {
+      return Ok(Some((format!("C07:three:second-writer-stream:{third:?}"), format!("the {name} took {s3:?} from the writer of P3; expected {from3:?}"))));
+    }
+  }
+  drop(readers);
+  // 3. the third participant goes away as a whole: its counterpart sees exactly one unmatch, the other
+  // endpoint of the first pair sees nothing, and the first pair goes on delivering
+  if sc.third_deleted {
+    drop(r3.take());
+    drop(w3.take());
+    third_pub.clear();
+    third_sub.clear();
+    topics[2] = None;
+    dps[2] = None;
+    let s = Instant::now();
+    let (mut cw, mut cr) = (0, 0);
+    while s.elapsed() < DEADLINE {
+      cw += w.matched_change();
+      cr += r.matched_change();
+      if (third == Third::Reader && cw <= -1) || (third == Third::Writer && cr <= -1) {
+        break;
+      }
+      std::thread::sleep(Duration::from_millis(20));
+    }
+    // let a wrong unmatch of the other pair show up
+    std::thread::sleep(Duration::from_secs(2));
+    cw += w.matched_change();
+    cr += r.matched_change();
+    let (want_w, want_r) = if third == Third::Reader { (-1, 0) } else { (0, -1) };
+    if (cw, cr) != (want_w, want_r) {
+      let key = if cw > want_w || cr > want_r { "C07:three:unmatch-not-observed" } else { "C07:three:spurious-unmatch" };
+      return Ok(Some((
+        format!("{key}:{third:?}"),
+        format!("after P3 (with its {third:?}) was deleted the writer of P1 saw a matched-count change of {cw} (should be {want_w}) and the reader of P2 one of {cr} (should be {want_r})"),
+      )));
+    }
+    for k in 30..33 {
+      w.write(Msg { id: k, seq: k, body: body(k, sc.size) }).map_err(|x| format!("MACHINERY write: {x}"))?;
+    }
+    let batch3: Vec<Got> = (30..33).map(|k| want_value(k, k, sc.size)).collect();
+    let mut got = vec![];
+    let s = Instant::now();
+    while s.elapsed() < DEADLINE && got.len() < batch3.len() {
+      r.take_all(&mut got);
+      std::thread::sleep(Duration::from_millis(20));
+    }
+    std::thread::sleep(Duration::from_millis(700));
+    r.take_all(&mut got);
+    if got != batch3 {
+      return Ok(Some((format!("C07:three:after-deletion:{third:?}"), format!("after P3 was deleted the reader of P2 took {got:?}; expected {batch3:?}"))));
+    }
+  }
+  drop(publishers);
+  drop(subscribers);
+  Ok(None)
+}
+
 /// child process entry: `mc C07 --shard i..i+1` with VERIF_C07_DOMAIN set
 pub fn one(tier: &str, idx: usize) -> i32 {
   let scs = scenarios(tier);
@@ -629,6 +944,9 @@ pub fn run(tier: &str) -> i32 {
         if i >= scs.len() {
           break;
         }
+        if std::env::var("VERIF_C07_ONLY_THREE").is_ok() && scs[i].third.is_none() {
+          continue; // development aid: the skipped scenarios are reported as "not run" (a machinery error)
+        }
         let sec = scs[i].secure.is_some();
         // (the fixture governance and permissions documents cover domains 0..100)
         let domain = if sec { 40 + slot as u16 } else { base_domain + slot as u16 };
@@ -682,7 +1000,9 @@ pub fn run(tier: &str) -> i32 {
   rep.set("creation_orders", json!(orders().len()));
   rep.set("distinct_nontrivial", json!(classes.len()));
   rep.set("exhaustive", json!(true));
-  rep.set("rule", json!("all 35 interleavings of P1<topic<writer<first writes and P2<topic<reader; quick: each with a 4 s pause before the later endpoint creation, durability alternating, plus deletion of reader / writer / the reader's participant, a no_key, a fragmented and a lossy scenario; thorough: x {Volatile, TransientLocal} x pause at no / every single position / before both endpoint creations, and on the orders that start P1,P2: payload sizes on both sides of the 1024-byte fragment limit in every residue mod 4 and 5000 bytes, no_key, deterministic loss (datagram k dropped when splitmix64(k, pattern) mod m = 0, six (m, pattern)), the five deletion scenarios (reader, writer, the reader's participant; reader then a new writer, writer then a new reader, which must find nothing to match); security enabled: 4 scenarios in quick, 66 in thorough (6 governance documents x 11 topics of all metadata x data protection kinds, payload sizes 10 / 13 / 1501 bytes, three orders). After the steps both sides must report the match within 30 s, a second batch (three values and one instance disposal) is written, and the reader must take exactly the acceptable sequence (TransientLocal: everything; Volatile late joiner: nothing of the first batch) within 30 s and nothing more; deletions must be observed as an unmatch within 30 s"));
+  rep.set("rule", json!("all 35 interleavings of P1<topic<writer<first writes and P2<topic<reader; quick: each with a 4 s pause before the later endpoint creation, durability alternating, plus deletion of reader / writer / the reader's participant, a no_key, a fragmented and a lossy scenario; thorough: x {Volatile, TransientLocal} x pause at no / every single position / before both endpoint creations, and on the orders that start P1,P2: payload sizes on both sides of the 1024-byte fragment limit in every residue mod 4 and 5000 bytes, no_key, deterministic loss (datagram k dropped when splitmix64(k, pattern) mod m = 0, six (m, pattern)), the five deletion scenarios (reader, writer, the reader's participant; reader then a new writer, writer then a new reader, which must find nothing to match); security enabled: 4 scenarios in quick, 66 in thorough (6 governance documents x 11 topics of all metadata x data protection kinds, payload sizes 10 / 13 / 1501 bytes, three orders). After the steps both sides must report the match within 30 s, a second batch (three values and one instance disposal) is written, and the reader must take exactly the acceptable sequence (TransientLocal: everything; Volatile late joiner: nothing of the first batch) within 30 s and nothing more; deletions must be observed as an unmatch within 30 s. Three participants (4 scenarios in quick, 64 in thorough): P3 carries a second reader or a second writer on the topic; 16 creation orders of the three chains (each permutation of the chains one after the other, layered, layered with the first writes straight after the writer, round robin) x {second reader, second writer} x durability, some fragmented / with a pause / lossy; every compatible pair must report its match (the writer exactly 2 readers, or the reader exactly 2 writers), each reader must take each writer's stream complete and in order under the same late-joiner rules, and on the TransientLocal ones P3 is then deleted as a whole: its counterpart must see exactly one unmatch, the other endpoint of the first pair none, and a third batch must still arrive completely"));
+  rep.set("three_party_scenarios", json!(scs.iter().filter(|s| s.third.is_some()).count()));
+  rep.set("three_party_creation_orders", json!(orders3().len()));
   rep.push_sample(json!(scs[0]));
   rep.push_sample(json!(scs[scs.len() / 2]));
   rep.assumptions = vec![
